@@ -1661,8 +1661,10 @@ class FnAnalysis(Analysis):
                 return Val(taint, "str")
             if mname in BYTES_RESULT_METHODS:
                 return Val(taint, "bytes")
-            if mname == "get" and recv.elem is not None and recv.elem.kind == "bmeth":
-                return recv.elem.but(may_none=True)        # a dispatch table of bound methods
+            if mname == "get" and recv.elem is not None and recv.elem.kind in ("bmeth", "cls"):
+                # a dispatch table of bound methods / classes: any of its values, or the default (None when absent)
+                dflt = argv[1] if len(argv) > 1 else kwv.get("default")
+                return join_val(recv.elem, dflt) if dflt is not None else recv.elem.but(may_none=True)
             if mname in ("get", "find") and taint:
                 # mapping.get(key[, default]) / Element.get / Element.find on peer-controlled content: absent -> None (or the default)
                 dflt = argv[1] if (mname == "get" and len(argv) > 1) else (kwv.get("default") if mname == "get" else None)
